@@ -121,6 +121,7 @@ class Harness:
             else:
                 self._twin_state = None
                 changed = self.ext(step)
+                self._prune_links()
                 if changed:
                     self.mutated_since_commit = True
                     self.stats['ext_effective'] += 1
@@ -241,6 +242,7 @@ class Harness:
                 os.symlink(tgt, p)
             except OSError:
                 return False
+            self.has_linkdirs = True
             return True
         if op == 'symlink':
             # p becomes a symbolic link to the regular file s[2] (C13: inputs reached through links)
@@ -250,6 +252,7 @@ class Harness:
             try:
                 os.makedirs(os.path.dirname(p), exist_ok=True)
                 os.symlink(tgt, p)
+                self.has_links = True
             except OSError:
                 return False
             return True
@@ -258,7 +261,10 @@ class Harness:
             if os.path.isdir(p):
                 if self._holds_cache(p):
                     return False
-                shutil.rmtree(p)
+                if os.path.islink(p):
+                    os.remove(p)
+                else:
+                    shutil.rmtree(p)
                 with open(p, 'wb') as f:
                     f.write(b'swapped')
                 mt = sb.next_mtime()
@@ -270,6 +276,34 @@ class Harness:
                 return True
             return False
         raise ValueError(op)
+
+    def _ctx(self, mode, prog, versions, ctx_step, crash_at=None):
+        c = dsl.Ctx(mode, prog, versions, ctx_step, self.universe, self.masked, crash_at)
+        c.linkdirs = self._linkdirs()
+        return c
+
+    def _linkdirs(self):
+        """Directories of the universe that are symbolic links (only C10/C13 create them)."""
+        if not getattr(self, 'has_linkdirs', False):
+            return ()
+        out = []
+        for root, dirs, _files in os.walk(self.R, followlinks=True):
+            for d in dirs:
+                p = os.path.join(root, d)
+                if os.path.islink(p):
+                    out.append(p)
+        return tuple(out)
+
+    def _prune_links(self):
+        """The small model of links: a link points to a regular file, or (C10/C13) to a directory outside the universe.
+        An external step that turns the target of a file link into a directory removes the link as well."""
+        if not getattr(self, 'has_links', False):
+            return
+        for root, dirs, files in os.walk(self.R):
+            for n in dirs + files:
+                p = os.path.join(root, n)
+                if os.path.islink(p) and os.path.isdir(p) and os.path.realpath(p).startswith(self.R + os.sep):
+                    os.remove(p)
 
     def _holds_cache(self, p):
         return self.cache.startswith(p + '/')
@@ -349,7 +383,7 @@ class Harness:
         fault = mode if isinstance(mode, dict) and 'k' in mode else None
         sched_spec = mode.get('sched') if isinstance(mode, dict) else None
         uses_par = any(s[0] == 'par' for blk in [prog['root']] + [f['body'] for f in prog['funcs'].values()] for s in dsl.iter_stmts(blk))
-        mctx = dsl.Ctx('model', prog, versions, ctx_step, self.universe, self.masked)
+        mctx = self._ctx('model', prog, versions, ctx_step)
         mb = ModelBuild(pre_model, self.prev, self.cache, versions, self.R)
 
         def run_model():
@@ -366,14 +400,15 @@ class Harness:
             mret = run_model()
 
         # ---- real run
-        rctx = dsl.Ctx('real', prog, versions, ctx_step, self.universe, self.masked, crash_at)
+        rctx = self._ctx('real', prog, versions, ctx_step, crash_at)
         real_exc = None
         inj = None
         if fault is not None:
             from . import interpose
             interpose.install()
             inj = interpose.FaultInjector(fault.get('k'))
-            rctx.fault_mode = {True: 'catch', 'root': 'catch_root'}.get(fault.get('catch'), 'nocatch')
+            rctx.fault_mode = {True: 'catch', 'retry': 'catch', 'root': 'catch_root'}.get(fault.get('catch'), 'nocatch')
+            rctx.fault_retry = fault.get('catch') == 'retry'
 
             def on_fire(_i):
                 rctx.fault_call = rctx.call_stack[-1] if rctx.call_stack else '<top>'
@@ -409,6 +444,7 @@ class Harness:
             self.last_fault = {'count': inj.count, 'fired': inj.fired, 'call': rctx.fault_call, 'labels': inj.labels}
             if fault_fired and rctx.fault_call != '<top>' and rctx.fault_mode in ('catch', 'catch_root'):
                 mctx.fault_mode = rctx.fault_mode
+                mctx.fault_retry = getattr(rctx, 'fault_retry', False)
                 mctx.fault_call = rctx.fault_call
                 mb.fault_inv = rctx.fault_call
                 mret = run_model()
@@ -427,13 +463,18 @@ class Harness:
             # second round: the reuse of a record may also be rejected because a concurrent task claimed a key inside it
             for implied in (False, True):
                 for order in itertools.permutations(range(ntasks)):
-                    mctx = dsl.Ctx('model', prog, versions, ctx_step, self.universe, self.masked)
+                    mctx = self._ctx('model', prog, versions, ctx_step)
                     mctx.extra['par_order'] = list(order)
                     mb = ModelBuild(pre_model, self.prev, self.cache, versions, self.R)
                     mb.implied_dup = implied
                     mret = run_model()
                     if first is None:
                         first = (mctx, mb, mret)
+                    if implied and not _implied_possible(mb.implied_hits, rctx.extra.get('events', [])):
+                        # the competing function had already been *invoked* when the reusing call was requested: its key
+                        # was claimed before the record was validated, so the library must re-execute the caller instead
+                        self.stats['par_implied_variant_ruled_out'] += 1
+                        continue
                     if _outcome_key(mret) == _outcome_key(rret):
                         # several references may explain the outcome: take the one that claims the fewest cache hits
                         # (invocations are compared with their arguments: two racers may request one path with
@@ -626,6 +667,8 @@ class Harness:
 
     def _check_consistency(self, rctx, info):
         """Model-free mutual consistency of the answers of each probe round (real run)."""
+        if getattr(self, 'has_linkdirs', False):
+            return []        # walk legitimately omits what lies below a linked directory
         fails = []
         rounds = collections.defaultdict(dict)
         # a probe statement produces, per invocation, a fixed-size consecutive block of trace entries
@@ -1045,6 +1088,17 @@ class _Abort(Exception):
 # --------------------------------------------------------------------------------------------------
 # C05 justification
 # --------------------------------------------------------------------------------------------------
+
+def _implied_possible(hits, events):
+    """An implied-duplicate rejection needs the competitor's claim to fall between the validation and the registration of
+    the reused record.  It is impossible when the competitor's function was already running before the request began."""
+    for rejected, claimed in hits:
+        first_call = next((i for i, e in enumerate(events) if e == ('call', rejected)), None)
+        first_inv = next((i for i, e in enumerate(events) if e == ('inv', claimed)), None)
+        if first_call is not None and first_inv is not None and first_inv < first_call:
+            return False
+    return True
+
 
 def _ct(v):
     from .canon import canon_text
